@@ -16,9 +16,9 @@ from common import *
 import journal as J
 import c11 as RX
 
-IMPORTS = ("From TkModel Require Import Base Dec Acct Txn Journal Round Price Time Regex T06_run T07_run.\n"
-           "From TkModel Require Filter MetaText Store.\n"
-           "From TkCorr Require Import T06_corr T07_corr.\n")
+IMPORTS = ("From TkModel Require Import Base Dec Acct Txn Journal Round Price Time Regex T06_run T07_run T08_filter.\n"
+           "From TkModel Require Filter MetaText Store Codec.\n"
+           "From TkCorr Require Import T06_corr T07_corr T08_corr.\n")
 
 HASHES = {"SHA-256": "sha256", "SHA-512": "sha512", "SHA-512/256": "sha512_256", "SHA3-256": "sha3_256", "SHA3-512": "sha3_512"}
 # report zones with a fixed offset (POSIX sign: Etc/GMT-3 = +03:00); the offsets are stated here, not read from the tz database
@@ -189,6 +189,82 @@ def tree_term(t, pats):
 def filter_arg(w):
     """the value of --api-filter-def: the JSON text of the FilterDefinition"""
     return json.dumps({"txnFilter": tree_json(w["filter"])}, ensure_ascii=False)
+
+
+# T08: how the definition reaches the binary.  w["fenc"]: None = the plain JSON text (as always), "armor" = `base64:` + standard base64 of
+# the UTF-8 of that text (must run exactly like the plain text), or a MALFORMED definition (exit status 1, nothing printed, no file)
+FENC_BAD = ["bad-b64", "double-prefix", "bad-json", "unknown-variant"]
+
+
+def filter_cli_text(w):
+    """the value of --api-filter-def as given to the binary"""
+    import base64
+    text = filter_arg(w)
+    armored = "base64:" + base64.b64encode(text.encode("utf-8")).decode("ascii")
+    fe = w.get("fenc")
+    if fe == "armor":
+        return armored
+    if fe == "bad-b64":          # not canonical base64: a length that is no multiple of 4 / a character outside the alphabet
+        return armored[:-1] if len(text) % 2 else armored[:9] + "*" + armored[10:]
+    if fe == "double-prefix":
+        return "base64:" + armored
+    if fe == "bad-json":
+        return text[:-1]
+    if fe == "unknown-variant":
+        return json.dumps({"txnFilter": {"TxnFilterBogus": {"regex": "x"}}})
+    return text
+
+
+def filter_leaf_asts(t, out):
+    if t[0] in ("and", "or"):
+        for x in t[1]:
+            filter_leaf_asts(x, out)
+    elif t[0] == "not":
+        filter_leaf_asts(t[1], out)
+    elif t[0] in ONE:
+        out.append(tup(t[1]))
+    elif t[0] == "amount":
+        out.append(tup(t[2]))
+    return out
+
+
+def ft_tables(w):
+    """the library tables of coq/corr/T08_corr.v for the world: pattern texts Regex::new accepts, JSON text -> tree (Python's json module
+    reads the text layer, as in gen/c18.py), pattern text -> AST"""
+    import base64, binascii
+    from c18 import tree_of, g_jv, NOT_JSON
+    asts = filter_leaf_asts(w["filter"], [])
+    texts = sorted(set(RX.pp(a) for a in asts))
+    oks = [x for p in texts for x in (p, "^(?:" + p + ")$")]
+    rtab = {}
+    for a in asts:
+        rtab.setdefault(RX.pp(a), RX.g_re(a))
+    jtexts = [filter_arg(w)]
+    cli = filter_cli_text(w)
+    if not cli.startswith("base64:"):
+        jtexts.append(cli)
+    jtab = []
+    for jt in sorted(set(jtexts)):
+        tr = tree_of(jt)
+        if tr is not NOT_JSON:
+            term = g_jv(tr)
+            for c in ("JNull", "JBool", "JNum", "JStr", "JArr", "JObj"):
+                term = term.replace("(%s " % c, "(Codec.%s " % c)
+            term = "Codec.JNull" if term == "JNull" else term.replace(" JNull", " Codec.JNull")
+            jtab.append("(%s, %s)" % (g_str(jt), term))
+    return (g_list([g_str(x) for x in oks]) if oks else "(@nil (list N))",
+            g_list(jtab) if jtab else "(@nil (list N * Codec.jv))",
+            g_list(["(%s, %s)" % (g_str(p), rtab[p]) for p in sorted(rtab)]) if rtab else "(@nil (list N * re))")
+
+
+def is_ft(w):
+    return bool(w.get("fenc")) and w.get("filter") is not None and not w.get("t07")
+
+
+def ft_args(w):
+    """arguments of t08_*_ft_case / _model: tables, configuration, digest table, filter text, journal, price file"""
+    ptext = "(Some %s)" % g_str(w["prices"]) if (w["prices"] is not None and w["price_section"]) else "None"
+    return "%s %s %s %s %s %s %s %s" % (ft_tables(w) + (cfg_term(w), hash_table(w), g_str(filter_cli_text(w)), g_str(w["journal"]), ptext))
 
 
 def has_ts(t):
@@ -510,6 +586,10 @@ def gen_world(r, idx, profile=None):
         apply_profile(r, w, profile, accounts)
     elif profile is not None:
         apply_t07(r, w, profile, accounts)
+    if w["filter"] is not None and not w.get("t07"):
+        # T08: a third of the single-file worlds with a filter pass it ARMORED; of the plain ones (no profile) 30 % more pass a MALFORMED definition
+        k = r.random()
+        w["fenc"] = "armor" if k < 0.34 else r.choice(FENC_BAD) if (k < 0.64 and profile is None) else None
     return finish_world(r, w)
 
 
@@ -864,7 +944,7 @@ def run_world(w, root):
         open(os.path.join(d, "j.txn"), "w", encoding="utf-8", newline="").write(w["journal"])
         args = ["--config", "tackler.toml", "--input.file", "j.txn"]
     if w["filter"] is not None:
-        args += ["--api-filter-def", filter_arg(w)]
+        args += ["--api-filter-def", filter_cli_text(w)]
     if w["before"] is not None:
         args += ["--price.before", w["before"]]
     if w["mode"] == "files":
@@ -1044,17 +1124,21 @@ def python_oracles(run, worlds, st, root):
 def case_term(w):
     im = w["impl"]
     v = "t07g" if (w.get("t07") or {}).get("git") is not None else "t07" if w.get("t07") else "t06"
+    fl = g_list(["(%s, %s)" % (g_str(n), g_str(c)) for n, c in im["files"].items()]) if im["files"] else "(@nil (list N * list N))"
+    if is_ft(w):     # the filter as the text of --api-filter-def: T08_filter.run_console_ft / run_files_ft
+        if w["mode"] == "console":
+            return "t08_console_ft_case %s %s %s" % (ft_args(w), g_bool(im["rc"] == 0), g_str(im["stdout"]))
+        return "t08_files_ft_case %s %s %s %s" % (ft_args(w), g_bool(im["rc"] == 0), fl, g_str(im["stdout"]))
     if w["mode"] == "console":
         return "%s_console_case %s %s %s" % (v, world_args(w), g_bool(im["rc"] == 0), g_str(im["stdout"]))
-    fl = g_list(["(%s, %s)" % (g_str(n), g_str(c)) for n, c in im["files"].items()]) if im["files"] else "(@nil (list N * list N))"
     return "%s_files_case %s %s %s %s" % (v, world_args(w), g_bool(im["rc"] == 0), fl, g_str(im["stdout"]))
 
 
 def replay_obj(w):
     keys = ("mode", "journal", "prices", "price_section", "jz_min", "deftime", "audit", "hash", "rtz", "smin", "smax", "targets", "exports", "accounts",
-            "bal", "grp", "reg", "eq", "group_by", "rc", "lt", "before", "titles", "style", "eqa", "filter", "prefix", "uuids", "break", "layout", "profile", "t07")
+            "bal", "grp", "reg", "eq", "group_by", "rc", "lt", "before", "titles", "style", "eqa", "filter", "fenc", "prefix", "uuids", "break", "layout", "profile", "t07")
     rep = {"world": {k: w.get(k) for k in keys}, "config_file": toml_of(w), "src": w.get("src"),
-           "command_line": (["--api-filter-def", filter_arg(w)] if w["filter"] is not None else [])
+           "command_line": (["--api-filter-def", filter_cli_text(w)] if w["filter"] is not None else [])
            + (["--price.before", w["before"]] if w["before"] is not None else [])
            + (["--output.dir", "out", "--output.prefix", w["prefix"]] if w["mode"] == "files" else [])}
     if "impl" in w:
@@ -1082,6 +1166,9 @@ def check_worlds(run, worlds, st, distinct=None):
     finally:
         shutil.rmtree(root, ignore_errors=True)
     terms = [case_term(w) for w in worlds]
+    ok, log = coq_make(["corr/T08_corr.vo"])      # the case functions of the worlds whose filter is given as text (with model/T08_filter.vo)
+    if not ok:
+        raise Infra("coq build of corr/T08_corr.vo failed:\n%s" % log[-3000:])
     vals, errs = coq_eval("T06-%s" % run.prop, IMPORTS, terms, timeout=1500)
     if errs:
         raise Infra("coq evaluation failed: " + errs[0])
@@ -1095,6 +1182,11 @@ def check_worlds(run, worlds, st, distinct=None):
         st[w["mode"]] += 1
         st["audit"] += 1 if w["audit"] else 0
         st["filtered"] += 1 if w["filter"] is not None else 0
+        if is_ft(w):
+            fk = "filter_armored" if w["fenc"] == "armor" else "filter_malformed"
+            st[fk] = st.get(fk, 0) + 1
+            if w["fenc"] != "armor":
+                st["filter_malformed_refused"] = st.get("filter_malformed_refused", 0) + (1 if (im["rc"] == 1 and not im["stdout"] and not im["files"]) else 0)
         st["converted"] += 1 if (w["rc"] is not None and w["lt"] != "none") else 0
         st["lookups"][w["lt"]] = st["lookups"].get(w["lt"], 0) + 1
         st["zones"][w["rtz"]] = st["zones"].get(w["rtz"], 0) + 1
@@ -1122,7 +1214,7 @@ def check_worlds(run, worlds, st, distinct=None):
                 distinct.add(hashlib.sha256((im["stdout"] + "\0".join(im["files"].values())).encode()).hexdigest())
         else:
             st["failed_runs"] += 1
-            k = w.get("break") or "other"
+            k = w.get("break") or ("bad-filter-def" if (is_ft(w) and w["fenc"] in FENC_BAD) else "other")
             st["failed_by_kind"][k] = st["failed_by_kind"].get(k, 0) + 1
         if im["rc"] not in (0, 1) or "panicked" in im["stderr"]:
             st["panics"] += 1
@@ -1149,7 +1241,8 @@ def check_worlds(run, worlds, st, distinct=None):
             bad.append((w, n >> 4))
     # the model's texts for the differing worlds (second evaluation, only then)
     if bad:
-        mterms = [("%s_%s_model %s" % ("t07g" if (w.get("t07") or {}).get("git") is not None else "t07" if w.get("t07") else "t06",
+        mterms = [("t08_%s_ft_model %s" % ("console" if w["mode"] == "console" else "files", ft_args(w))) if is_ft(w) else
+                  ("%s_%s_model %s" % ("t07g" if (w.get("t07") or {}).get("git") is not None else "t07" if w.get("t07") else "t06",
                                        "console" if w["mode"] == "console" else "files", world_args(w))) for w, _ in bad[:5]]
         mvals, merrs = coq_eval("T06-%s-model" % run.prop, IMPORTS, mterms, timeout=900)
         for (w, d), mv in zip(bad[:5], mvals or [None] * 5):
